@@ -284,6 +284,11 @@ def run_real_scenarios(scs, ctx, parallel=4):
         sc['real'] = True
         try:
             tr, dg = rtreal.run_real(sc, ctx.scratch)
+            if dg['blocked_threads']:
+                # OS-scheduled runs are judged by wall clock: a call still pending may just be a loaded machine.
+                # A genuine hang persists, so the run is repeated once with a six-fold time limit and only that verdict counts.
+                tr, dg = rtreal.run_real(sc, ctx.scratch, call_timeout=240.0)
+                dg['notes'] = list(dg.get('notes', [])) + ['first attempt had a call pending after 40 s; repeated with 240 s']
             out.append((tr, dg, sc))
         except Exception as e:
             raise MachineryError('real-process run failed: %r' % (e,))
